@@ -279,3 +279,20 @@ for _k in range(len(K4_KINDS)):
            bound="one source class with ANY non-empty subset of the attributes %r, emit kind %s, import inference %s (solver-enumerated): the generated symbol, "
                  "rendered to text and parsed back with the matching parser, has the names, order, types, defaults and descriptions of the source entry"
                  % ([(n, t, d) for n, t, d, _ in ATTRS], K4_KINDS[_k], "on" if _inf else "off"))(_ip)
+
+
+# K5: HISTORY - gen runs twice in one process (two modules generated one after the other): the second result is as good as the first -----------------------------
+def gen_twice(kind1, kind2, infer1, infer2, same_names):
+    d = module_defines(kind1, infer1, 1, 0, 0)
+    if d:
+        return "first gen: " + d
+    d = module_defines(kind2, infer2, 1, 0, 0 if same_names else 1)
+    if d:
+        return "second gen in the same process (after a gen with inference %s): %s" % ("on" if infer1 else "off", d)
+    return ""
+
+
+ob("C19", "K5.gen_twice", {"kind1": R(0, 2), "kind2": R(0, 2), "infer1": BOOL, "infer2": BOOL, "same_names": BOOL}, enum=True, isolated=True, T=900,
+   funcs=["cdd.compound.gen_utils.gen_module", "cdd.shared.ast_utils.infer_imports", "cdd.shared.ast_utils.optimise_imports"],
+   bound="two gen_module calls in ONE process (emit kinds class/function/argparse each, import inference on/off each, same or different entry names; solver-enumerated): the second module "
+         "also defines its symbol, lists it in __all__, imports typing when Optional is used and inference is on, and compiles")(gen_twice)
